@@ -55,6 +55,15 @@ func crashChildMain(args []string) {
 		}
 	case "cfg":
 		startTransport(args[1], args[2])
+	case "cfgset":
+		// NewIPTransport on <dir> with the accessory set <struct> (the C20 structure language); killed at a crash point
+		accs, err := buildSet(args[2])
+		if err != nil {
+			os.Exit(5)
+		}
+		if _, err := hc.NewIPTransport(hc.Config{StoragePath: args[1]}, accs[0], accs[1:]...); err != nil {
+			os.Exit(4)
+		}
 	}
 	os.Exit(0)
 }
